@@ -359,7 +359,17 @@ def step (line : String) : String :=
       match docOfHex h with
       | none => "not-json"
       | some d => if docNoDup d then toString (rootAccepts a d) else "unmodelled"
-  | ["derive_rt", _, _] => "n/a"
+  | ["derive_rt", a, h] => withShape a fun a =>
+      -- what comes back when the value that was read is serialised again, compared with the source up to
+      -- number formatting and explicit nulls for absent optional members
+      if badFields a || nameClash a then "unmodelled" else
+      match docOfHex h with
+      | none => "not-json"
+      | some d =>
+        if !docNoDup d then "unmodelled" else
+        match serdeBack (if rootOptionalNamed a then a.asNonOptional else a) d with
+        | some d' => toString (backEq d d')
+        | none => "rejected"
   | "kfclass" :: "d3" :: hs =>
       match docsOfHex hs with
       | none => "not-json"
